@@ -80,7 +80,8 @@ def main():
                     "for f in %s/src/core/*.cpp %s/src/cinter/splinetable.cpp; do g++ -std=c++11 %s -c $f -o %s/$(basename $f).o || exit 1; done" % (scratch, scratch, F, o)]
             if demo.endswith(".c"): cmds.append("gcc -std=gnu99 %s -c %s -o %s/demo_main.o" % (F, demo, o))
             else: cmds.append("g++ -std=c++11 -fno-access-control %s -c %s -o %s/demo_main.o" % (F, demo, o))
-            cmds.append("g++ %s/*.o -o %s/demo -lcfitsio -lcholmod -lspqr -lsuitesparseconfig -lopenblas -lpthread -lm -ldl" % (o, o))
+            wl = " ".join(sorted(set(re.findall(r"-Wl,[^\s\\]+", "\n".join(open(demo, errors="replace").read().splitlines()[:60])))))   # linker options the demo's own recipe asks for (e.g. --wrap)
+            cmds.append("g++ %s/*.o %s -o %s/demo -lcfitsio -lcholmod -lspqr -lsuitesparseconfig -lopenblas -lpthread -lm -ldl" % (o, wl, o))
             rb = sh(" && ".join(cmds), cwd=scratch)
             return rb, os.path.join(o, "demo")
         def run_demo():
